@@ -20,7 +20,8 @@ PROPS = {
     "C02": {
         "rule": "canonical packet of every type in both dialects: every truncation (with and without size fix-up), "
                 "every declared size 0..len+8 and extremes, substitution {0,1,0x7f,0x80,0xff} at every offset, junk "
-                "inside the declared size, the other dialect, count fields that lie (2^28, 2^32-1), stat records "
+                "inside the declared size, the other dialect, count fields that lie (2^28, 2^32-1), element counts whose byte "
+                "requirement wraps around in 16 bits with a body about that long, stat records "
                 "truncated/substituted, random bytes, splices, bit flips; allocation measured per decode. "
                 "non-trivial = distinct inputs that decode successfully",
         "modelled": CODEC_MODELLED + ["allocation: only the make() calls whose size comes from a count field are in "
@@ -74,7 +75,9 @@ PROPS = {
                 "offset, one byte at a time, and in random multi-way cuts through a pipe whose Read returns exactly the "
                 "chunk; Twrite payloads are looked at by the implementation only after all later chunks arrived. Compared "
                 "with the model: frames executed / connection ended; oracle: replies and payloads identical to the "
-                "unsegmented run. client: 1..8 concurrent calls answered in one reply stream cut arbitrarily. "
+                "unsegmented run; bodies that open with a Tversion switching a .u session to plain 9P2000 and lowering msize, "
+                "followed by requests that decode only in the new dialect and frames only the old msize admits (model: "
+                "G9.FrameV). client: 1..8 concurrent calls answered in one reply stream cut arbitrarily. "
                 "non-trivial = distinct (body, cuts) runs that executed at least one frame",
         "modelled": ["modelled, not verified: the transport as a reliable byte stream whose Read returns 1..len bytes; "
                      "uint32 wrap of msize*8 for msize >= 2^29 is outside the model (a server cannot be configured that large in practice)"],
